@@ -13,6 +13,7 @@ every schedule of those models. The real constructs are run under seeded schedul
   * a drift guard (tools/shapehash) compares a normalised hash and the call-chain shape of every
     modelled function with the values stored beside the model (lean/FunModel/Pipe.shapes.json).
 A case: (pipe (construct c) (workers n) (buf k) (input ..) (consumer behaviour [k]) (seed s) (procs p))."""
+import time
 import collections, json, os, random, sys, time
 from . import common as C
 
@@ -333,7 +334,11 @@ def drift_guard():
     spec = os.path.join(C.LEAN, "FunModel", "Pipe.spec.txt")
     stored_p = os.path.join(C.LEAN, "FunModel", "Pipe.shapes.json")
     with C.Lock("go"):
-        rc, out = C.sh(["go", "run", ".", "-repo", C.REPO, "-list", spec], cwd=tool, env=C.GOENV, timeout=600)
+        for attempt in range(3):
+            rc, out = C.sh(["go", "run", ".", "-repo", C.REPO, "-list", spec], cwd=tool, env=C.GOENV, timeout=600)
+            if rc == 0 or ("cannot open file" not in out and "could not import" not in out and "no such file" not in out):
+                break
+            time.sleep(3)      # the shared Go build cache was trimmed under the build: try again
     if rc != 0:
         return False, "drift guard tool failed: " + out[-300:]
     try:
